@@ -96,6 +96,9 @@ def judge_all(prop, cfg, lines, impl, model, incidents):
             continue
         mi, ms, reason = core.split_model(model[i] if model[i] is not None else "missing")
         a = impl[i] if impl[i] is not None else "missing"
+        if a == "not-run":
+            ctx.count("not_run_after_repeated_hangs")
+            continue
         if i in inc:
             skip = True
         fs = spec["judge"](ctx, i, op, a, mi, ms, reason)
@@ -155,7 +158,18 @@ def shrink(prop, cfg, wd, pre, case, kind):
     cur = list(case)
     budget = 150
     n = 2
-    while len(cur) > 2 and budget > 0:
+    # shrinking is a convenience: it gets three minutes, and a hanging candidate is given up on after 20 s
+    deadline = time.time() + 180
+    old_idle, core.IDLE_LIMIT = core.IDLE_LIMIT, 20
+    try:
+        cur = _ddmin(cur, fails, budget, n, deadline)
+    finally:
+        core.IDLE_LIMIT = old_idle
+    return cur
+
+
+def _ddmin(cur, fails, budget, n, deadline):
+    while len(cur) > 2 and budget > 0 and time.time() < deadline:
         chunk = max(1, len(cur) // n)
         reduced = False
         for s in range(1, len(cur), chunk):
@@ -166,7 +180,7 @@ def shrink(prop, cfg, wd, pre, case, kind):
                 n = max(n - 1, 2)
                 reduced = True
                 break
-            if budget <= 0:
+            if budget <= 0 or time.time() > deadline:
                 break
         if not reduced:
             if chunk == 1:
